@@ -17,6 +17,6 @@ for r in rs:
     lines.append(f"| {r['change']} | {r['property']} | {r['what']} | {r['check']} | {r['result']} | {r['how']} |")
 lines += ["", "Checks strengthened because a change was missed at first: C02 (refit histories), C09 (relative-threshold selectors), C10 (unequal folds), C12 (refit histories), "
           "C16 (collinear n=4 for Gabriel shells >= 3), C03 (4x3 configuration with two retained components for the truncated solvers: C04-b), C05 (refit history with center switched off: C05-a), "
-          "C18 (refit with a user-supplied estimator: C18-b), C17 (refit cache history: C17-b), C13 (train/test inside the family with remainder: C13-b; LRE==GRE with remainder: C13-c), C05 (homogeneous polynomial kernel: C05-c), C07 (positive tolerance: C07-c), C10 (folds of different rank: C10-c), C06 (scale-relative replay tolerance: C06-a), linalg (float-faithful inv on singular input: C03-b, C14-a), runner (API exceptions as candidates: C14-b; witness search after a solver candidate: C01-a, C20-b).", ""]
+          "C18 (refit with a user-supplied estimator: C18-b), C17 (refit cache history: C17-b), C13 (train/test inside the family with remainder: C13-b; LRE==GRE with remainder: C13-c), C05 (homogeneous polynomial kernel: C05-c), C07 (positive tolerance: C07-c), C10 (folds of different rank: C10-c), C18 (closed-form 2x2 Procrustes + ridge estimator with rotated coupling: C18-c), C06 (scale-relative replay tolerance: C06-a), linalg (float-faithful inv on singular input: C03-b, C14-a), runner (API exceptions as candidates: C14-b; witness search after a solver candidate: C01-a, C20-b).", ""]
 open(os.path.join(root, "seeded", "RESULTS.md"), "w").write("\n".join(lines))
 print(cnt)
